@@ -6,6 +6,7 @@ import (
 	"path"
 	"sort"
 	"strings"
+	"sync/atomic"
 	"testing"
 	"time"
 
@@ -443,7 +444,13 @@ func runCase(c caseT, record bool, exclude bool) error {
 	defer sc.Close()
 	env := hx.NewEnv()
 	b := &builder{env: env, v: env.Actor("builder"), sc: sc, w: newWorld()}
-	if err := b.build(c); err != nil {
+	if err, hung, panicked := hx.Guard(buildLimit, func() error { return b.build(c) }); err != nil {
+		if hung {
+			hungOnce.Store(true)
+		}
+		if hung || panicked {
+			return fmt.Errorf("while creating the objects through the core API: %v (hung=%v panicked=%v)", err, hung, panicked)
+		}
 		return fmt.Errorf("harness/build: %v", err)
 	}
 	reader := env.Actor("lister")
@@ -476,7 +483,16 @@ func runCase(c caseT, record bool, exclude bool) error {
 				}
 			}
 		}
-		got, err := doList(reader.Stores, l, repo, did)
+		var got []item
+		lcall := l
+		err, hung, panicked := hx.Guard(listLimit, func() (e error) { got, e = doList(reader.Stores, lcall, repo, did); return })
+		if hung {
+			hungOnce.Store(true)
+			return fmt.Errorf("HANG: listing #%d %+v did not return within %s", li, l, listLimit)
+		}
+		if panicked {
+			return fmt.Errorf("PANIC: listing #%d %+v: %v", li, l, err)
+		}
 		if err != nil {
 			return fmt.Errorf("listing #%d %+v failed: %v", li, l, err)
 		}
@@ -525,17 +541,31 @@ func runCase(c caseT, record bool, exclude bool) error {
 	return nil
 }
 
+// watchdog limits: a listing normally takes 1-300 ms, building a history 10 ms - 3 s
+const (
+	listLimit  = 60 * time.Second
+	buildLimit = 180 * time.Second
+)
+
+// hungOnce is set when a watchdog fired: the abandoned goroutine may keep spinning, so nothing that
+// runs afterwards in this process is meaningful.  Later invocations of the property (rapid's
+// shrinking) return at once, which leaves the journalled original case as the reported one.
+var hungOnce atomic.Bool
+
 func TestProp(t *testing.T) {
 	rapid.Check(t, func(t *rapid.T) {
 		c := drawCase(t)
+		if hungOnce.Load() {
+			return
+		}
 		hx.Journal(c)
-		err, hung, panicked := hx.Guard(180*time.Second, func() error { return runCase(c, true, true) })
-		if hung || panicked || err != nil {
-			if err != nil && strings.HasPrefix(err.Error(), "harness/") {
+		err := runCase(c, true, true)
+		if err != nil {
+			if strings.HasPrefix(err.Error(), "harness/") {
 				t.Fatalf("HARNESS TROUBLE (not a datamon defect): %v", err)
 			}
-			stats.Violation(fmt.Sprint(err))
-			t.Fatalf("%v (hung=%v panicked=%v)", err, hung, panicked)
+			stats.Violation(err.Error())
+			t.Fatalf("%v", err)
 		}
 	})
 }
